@@ -19,6 +19,7 @@ import (
 	"os"
 	"strings"
 	"sync"
+	"sync/atomic"
 	"time"
 
 	vaxis "git.sr.ht/~rockorager/vaxis"
@@ -227,6 +228,7 @@ type env struct {
 	reached  chan struct{}
 	release  chan struct{}
 	quitKey  int
+	quitSeen bool // a QuitCmd was returned by some handler
 }
 
 type plainW struct {
@@ -319,8 +321,13 @@ func (e *env) handle(w int, ev vaxis.Event, ph int) vxfw.Command {
 	} else {
 		c = e.gen(e, w, evt, ph)
 	}
+	e.mu.Lock()
 	e.calls = append(e.calls, callT{W: w, Ev: evt, Ph: ph})
 	e.script = append(e.script, c)
+	if c.K == "quit" {
+		e.quitSeen = true
+	}
+	e.mu.Unlock()
 	return e.goCmd(c)
 }
 
@@ -650,9 +657,13 @@ func newDirect(e *env) *direct {
 	return &direct{e: e, v: v, fc: fc}
 }
 
+// closeHangs counts Vaxis.Close calls that did not return (not this property's subject:
+// the instance is abandoned and the run goes on)
+var closeHangs int32
+
 func (d *direct) close() {
-	if !hx.WithTimeout(5*time.Second, d.v.Close) {
-		panic("Close hangs")
+	if !hx.WithTimeout(3*time.Second, d.v.Close) {
+		atomic.AddInt32(&closeHangs, 1)
 	}
 }
 
@@ -928,7 +939,7 @@ func (c *acase) term() string {
 	for i := range c.Inputs {
 		ins[i] = coqInput(c.Inputs[i])
 	}
-	return hx.Tuple(hx.IntList(c.Capt), hx.Z(int64(c.Root)), coqCmds(c.Script), hx.List(ins), coqCalls(c.Calls), coqCmds(c.Outs))
+	return hx.Tuple(hx.IntList(c.Capt), hx.Z(int64(c.Root)), coqCmds(c.Script), hx.List(ins), coqCalls(c.Calls), coqCmds(c.Outs), hx.Bool(c.Early))
 }
 
 type aplan struct {
@@ -944,26 +955,74 @@ type aplan struct {
 
 const syncBase = 100000
 
-// runApp runs a real App.Run.  The history is a list of segments; each segment is a burst
+type aseg struct {
+	burst  []inputT
+	redraw int   // which request ends the burst (0 Redraw, 1 Resize)
+	tree   *node // what the root draws in the frame after the burst
+}
+
+type aplanned struct {
+	class string
+	root  int
+	capt  []int
+	uni   int
+	t0    *node
+	segs  []aseg // the last segment has no frame: it ends with the quit key
+}
+
+func planApp(r *rand.Rand, p aplan) aplanned {
+	u := p.tree.universe
+	pl := aplanned{class: p.class, uni: u, root: r.Intn(2)}
+	for i := 0; i < u; i++ {
+		if r.Intn(100) < p.captRate {
+			pl.capt = append(pl.capt, i)
+		}
+	}
+	cur := genTree(r, p.tree, pl.root)
+	pl.t0 = cur
+	for seg := 0; seg < p.segments; seg++ {
+		var sg aseg
+		for k := 0; k < p.perSeg; k++ {
+			x := r.Intn(100)
+			switch {
+			case x < 35:
+				kc := r.Intn(5) + 1
+				if r.Intn(3) == 0 {
+					kc = -1 - r.Intn(3)
+				}
+				sg.burst = append(sg.burst, inputT{K: "ev", Ev: &evT{K: "key", A: kc}})
+			case x < 80 || !p.termFocus:
+				col, row := pickMouse(r, cur)
+				sg.burst = append(sg.burst, inputT{K: "mouse", A: col, B: row})
+			case x < 90:
+				sg.burst = append(sg.burst, inputT{K: "termfocusin"})
+			default:
+				sg.burst = append(sg.burst, inputT{K: "termfocusout"})
+			}
+		}
+		sg.redraw = r.Intn(2)
+		if r.Intn(2) == 0 {
+			cur = genTree(r, p.tree, pl.root)
+		}
+		sg.tree = cur
+		pl.segs = append(pl.segs, sg)
+	}
+	return pl
+}
+
+// execApp runs a real App.Run.  The history is a list of segments; each segment is a burst
 // of events that is queued completely while the App goroutine is parked inside a handler
 // (so no 8 ms gap can occur inside a burst), followed by a Redraw request and the frame
 // the 8 ms timer then produces.  The root's first Draw of that frame parks the goroutine
 // again until the next segment's first event is queued.
-func runApp(r *rand.Rand, p aplan) *acase {
-	u := p.tree.universe
+func execApp(r *rand.Rand, pl aplanned, gen func(e *env, w int, ev evT, ph int) cmdT, cmds *cmdOpts) *acase {
 	capt := map[int]bool{}
-	var captL []int
-	for i := 0; i < u; i++ {
-		if r.Intn(100) < p.captRate {
-			capt[i] = true
-			captL = append(captL, i)
-		}
+	for _, w := range pl.capt {
+		capt[w] = true
 	}
-	root := r.Intn(2)
-	cmds := p.cmds
-	e := newEnv(r, u, capt, nil)
-	e.gen = scriptGen(&cmds, p.quiet)
-	c := &acase{Class: p.class, Capt: captL, Root: root}
+	root := pl.root
+	e := newEnv(r, pl.uni, capt, gen)
+	c := &acase{Class: pl.class, Capt: pl.capt, Root: root}
 	if c.Capt == nil {
 		c.Capt = []int{}
 	}
@@ -973,8 +1032,10 @@ func runApp(r *rand.Rand, p aplan) *acase {
 		panic(err)
 	}
 	fc.Take()
-	cur := genTree(r, p.tree, root)
-	cmds.focusTargets = treeIDs(cur, nil)
+	cur := pl.t0
+	if cmds != nil {
+		cmds.focusTargets = treeIDs(cur, nil)
+	}
 	e.curTree = cur
 	c.Inputs = append(c.Inputs, inputT{K: "start", T: cur})
 	// vaxis.New leaves the initial Resize in the queue
@@ -1020,35 +1081,20 @@ func runApp(r *rand.Rand, p aplan) *acase {
 			}
 			finished = true
 			return false
-		case <-time.After(20 * time.Second):
+		case <-time.After(90 * time.Second):
 			panic("app stream: the App goroutine did not reach the rendezvous")
 		}
 	}
-	for seg := 0; seg < p.segments && !finished; seg++ {
+	for seg := 0; seg < len(pl.segs) && !finished; seg++ {
 		if !wait(e.reached) {
 			break
 		}
 		// the App goroutine is parked in the handler of the sync key: queue the burst
-		last := seg == p.segments-1
-		for k := 0; k < p.perSeg; k++ {
-			x := r.Intn(100)
-			switch {
-			case x < 35:
-				kc := r.Intn(5) + 1
-				if r.Intn(3) == 0 {
-					kc = -1 - r.Intn(3)
-				}
-				post(keyIn(kc))
-			case x < 80 || !p.termFocus:
-				col, row := pickMouse(r, cur)
-				post(inputT{K: "mouse", A: col, B: row})
-			case x < 90:
-				post(inputT{K: "termfocusin"})
-			default:
-				post(inputT{K: "termfocusout"})
-			}
+		sg := pl.segs[seg]
+		for _, in := range sg.burst {
+			post(in)
 		}
-		if last {
+		if seg == len(pl.segs)-1 {
 			e.mu.Lock()
 			e.quitKey = syncBase + 999
 			e.mu.Unlock()
@@ -1056,12 +1102,12 @@ func runApp(r *rand.Rand, p aplan) *acase {
 			e.release <- struct{}{}
 			break
 		}
-		post(inputT{K: "redrawreq", A: r.Intn(2)})
-		if r.Intn(2) == 0 {
-			cur = genTree(r, p.tree, root)
+		post(inputT{K: "redrawreq", A: sg.redraw})
+		cur = sg.tree
+		e.mu.Lock()
+		if cmds != nil {
 			cmds.focusTargets = treeIDs(cur, nil)
 		}
-		e.mu.Lock()
 		e.curTree = cur
 		e.gateDraw = true
 		e.mu.Unlock()
@@ -1083,10 +1129,24 @@ func runApp(r *rand.Rand, p aplan) *acase {
 			if err != nil {
 				panic(err)
 			}
-		case <-time.After(20 * time.Second):
-			panic("app stream: App.Run did not return after QuitCmd")
+		case <-time.After(8 * time.Second):
+			// App.Run ends with vx.Close(); if a QuitCmd was returned and nothing
+			// moves any more, Close is what hangs (not this property's subject)
+			e.mu.Lock()
+			seen, n := e.quitSeen, len(e.calls)
+			e.mu.Unlock()
+			time.Sleep(200 * time.Millisecond)
+			e.mu.Lock()
+			still := len(e.calls) == n
+			e.mu.Unlock()
+			if !seen || !still {
+				panic("app stream: App.Run did not return after QuitCmd")
+			}
+			atomic.AddInt32(&closeHangs, 1)
 		}
 	}
+	e.mu.Lock()
+	defer e.mu.Unlock()
 	c.Calls = append([]callT{}, e.calls...)
 	c.Script = append([]cmdT{}, e.script...)
 	c.Outs = parseOuts(fc.Take())
@@ -1096,18 +1156,61 @@ func runApp(r *rand.Rand, p aplan) *acase {
 	if c.Script == nil {
 		c.Script = []cmdT{}
 	}
-	c.Early = finished
+	// the forced QuitCmd of the last key was never needed: App.Run returned before the
+	// end of the history
+	c.Early = finished || e.quitKey != 0
 	c.nontriv = len(c.Calls) > 2
 	c.tags = []string{}
 	for _, in := range c.Inputs {
 		c.tags = append(c.tags, "in:"+in.K)
 	}
-	if p.class != "" {
-		c.tags = append(c.tags, "class:"+p.class)
+	if pl.class != "" {
+		c.tags = append(c.tags, "class:"+pl.class)
 	}
 	if c.Early {
 		c.tags = append(c.tags, "quit-early")
 	}
+	return c
+}
+
+func runApp(r *rand.Rand, p aplan) *acase {
+	cmds := p.cmds
+	pl := planApp(r, p)
+	return execApp(r, pl, scriptGen(&cmds, p.quiet), &cmds)
+}
+
+// fixedGen answers the k-th call with script[k] (nothing after the end)
+func fixedGen(script []cmdT) func(e *env, w int, ev evT, ph int) cmdT {
+	return func(e *env, w int, ev evT, ph int) cmdT {
+		if k := len(e.calls); k < len(script) {
+			return script[k]
+		}
+		return cmdT{K: "none"}
+	}
+}
+
+// runDirectFixed replays a fixed history through the handlers
+func runDirectFixed(class string, universe int, capt []int, root int, inputs []inputT, script []cmdT) *dcase {
+	cm := map[int]bool{}
+	for _, w := range capt {
+		cm[w] = true
+	}
+	e := newEnv(rand.New(rand.NewSource(1)), universe, cm, fixedGen(script))
+	d := newDirect(e)
+	defer d.close()
+	c := &dcase{Class: class, Capt: capt, Root: root, Focus0: root, Path0: []int{root}}
+	if c.Capt == nil {
+		c.Capt = []int{}
+	}
+	d.v.SetFocusState(e.widgets[root], e.widgets[root], []vxfw.Widget{e.widgets[root]})
+	d.fc.Take()
+	for _, i := range inputs {
+		c.Inputs = append(c.Inputs, i)
+		c.Obs = append(c.Obs, d.exec(i))
+	}
+	c.Script = append([]cmdT{}, e.script...)
+	c.nontriv = len(e.calls) > 0
+	c.tags = directTags(c, dplan{class: class})
 	return c
 }
 
@@ -1120,7 +1223,7 @@ func main() {
 
 	nDirect, nApp := 1200, 160
 	if cfg.Thorough() {
-		nDirect, nApp = 24000, 3000
+		nDirect, nApp = 12000, 2000
 	}
 
 	direct := hx.NewStream("direct", "model.Route", "dcase", "c15_direct_mismatches", "c15_direct_violations")
@@ -1177,7 +1280,89 @@ func main() {
 		appS.Add(c.term(), c, c.nontriv, c.tags...)
 	}
 
+	// ---- finding streams: witnesses of the recorded findings replayed on the real code
+	// (same histories as the ..._refuted theorems of props/C15.v) plus a few random
+	// histories of the class; checked against the property WITHOUT the guards.
+	key := func(k int) inputT { return inputT{K: "ev", Ev: &evT{K: "key", A: k}} }
+	leaf := func(id, w, h int) *node { return &node{ID: id, W: w, H: h} }
+	mkDirectKF := func(name, class string) *hx.Stream {
+		st := hx.NewStream(name, "model.Route", "dcase", "c15_direct_mismatches", "c15_direct_strict_violations")
+		st.Known, st.KnownClass = "c15_direct_all", class
+		return st
+	}
+	nKF := 12
+	if cfg.Thorough() {
+		nKF = 120
+	}
+	randomDirect := func(st *hx.Stream, class string, mod func(p *dplan)) {
+		for n := 0; n < nKF; n++ {
+			p := dplan{class: class, tree: treeOpts{universe: 6}, quiet: 60, steps: 12, rerender: 100, captRate: 40}
+			mod(&p)
+			p.cmds.universe = p.tree.universe
+			c := genDirect(r, p)
+			st.Add(c.term(), c, c.nontriv, c.tags...)
+		}
+	}
+
+	staleTree := &node{ID: 0, W: 10, H: 5, Kids: []kid{
+		{Col: 0, Row: 0, N: &node{ID: 1, W: 5, H: 5, Kids: []kid{{N: leaf(2, 2, 2)}}}},
+		{Col: 5, Row: 0, N: leaf(3, 5, 5)}}}
+	kfStale := mkDirectKF("kf_stale", "stale-path")
+	{
+		c := runDirectFixed("stale-path", 4, nil, 0,
+			[]inputT{{K: "render", T: staleTree}, {K: "focus", A: 2}, {K: "render", T: staleTree}, key(1), key(2)},
+			[]cmdT{{K: "none"}, {K: "none"}, {K: "focus", A: 3}})
+		kfStale.Add(c.term(), c, true, c.tags...)
+		randomDirect(kfStale, "stale-path", func(p *dplan) { p.rerender = 0; p.quiet = 40 })
+	}
+
+	overlapTree := &node{ID: 0, W: 10, H: 5, Kids: []kid{{Col: 0, Row: 0, N: leaf(1, 6, 5)}, {Col: 4, Row: 0, N: leaf(2, 6, 5)}}}
+	kfOverlap := mkDirectKF("kf_overlap", "overlap-siblings")
+	{
+		c := runDirectFixed("overlap-siblings", 3, []int{1}, 0,
+			[]inputT{{K: "render", T: overlapTree}, {K: "mouse", A: 4, B: 0}}, nil)
+		kfOverlap.Add(c.term(), c, true, c.tags...)
+		randomDirect(kfOverlap, "overlap-siblings", func(p *dplan) { p.tree.overlap = true; p.cmds = cmdOpts{}; p.quiet = 95 })
+	}
+
+	kfFocusOut := mkDirectKF("kf_focusout", "focus-in-focusout")
+	{
+		c := runDirectFixed("focus-in-focusout", 3, nil, 0, []inputT{key(1)},
+			[]cmdT{{K: "focus", A: 1}, {K: "focus", A: 2}})
+		kfFocusOut.Add(c.term(), c, true, c.tags...)
+		randomDirect(kfFocusOut, "focus-in-focusout", func(p *dplan) { p.cmds.focusInOut = true; p.quiet = 20 })
+	}
+
+	dupTree := &node{ID: 0, W: 5, H: 5, Kids: []kid{{N: &node{ID: 1, W: 5, H: 5, Kids: []kid{{N: leaf(1, 3, 3)}}}}}}
+	kfDup := mkDirectKF("kf_dup", "dup-widget")
+	{
+		c := runDirectFixed("dup-widget", 2, nil, 0, []inputT{{K: "render", T: dupTree}, {K: "mouse", A: 0, B: 0}}, nil)
+		kfDup.Add(c.term(), c, true, c.tags...)
+		randomDirect(kfDup, "dup-widget", func(p *dplan) { p.tree.dup = true; p.cmds = cmdOpts{}; p.quiet = 95 })
+	}
+
+	kfTerm := hx.NewStream("kf_termfocus", "model.Route", "acase", "c15_app_mismatches", "c15_app_strict_violations")
+	kfTerm.Known, kfTerm.KnownClass = "c15_app_all", "termfocus-enter"
+	{
+		t := leaf(0, 5, 5)
+		for _, burst := range [][]inputT{
+			{{K: "termfocusin"}, {K: "termfocusout"}},
+			{{K: "termfocusin"}, {K: "mouse", A: 0, B: 0}},
+		} {
+			pl := aplanned{class: "termfocus-enter", root: 0, uni: 2, t0: t, segs: []aseg{{burst: burst}}}
+			c := execApp(rand.New(rand.NewSource(1)), pl, fixedGen(nil), nil)
+			kfTerm.Add(c.term(), c, true, c.tags...)
+		}
+		for n := 0; n < nKF; n++ {
+			p := aplan{class: "termfocus-enter", tree: treeOpts{universe: 5}, quiet: 95, segments: 2, perSeg: 6, termFocus: true, captRate: 30}
+			p.cmds.universe = 5
+			c := runApp(rand.New(rand.NewSource(r.Int63())), p)
+			kfTerm.Add(c.term(), c, c.nontriv, c.tags...)
+		}
+	}
+
 	cfg.Write("C15",
-		"direct: a case is nontrivial when at least one handler call was made; app: when more than the two calls every history has were made",
-		[]*hx.Stream{direct, appS}, map[string]interface{}{"direct_cases": nDirect, "app_cases": nApp}, nil)
+		"direct: a case is nontrivial when at least one handler call was made; app: when more than the two calls every history has were made; kf_*: the witnesses of the recorded findings and random histories of their class, checked without the guards",
+		[]*hx.Stream{direct, appS, kfStale, kfOverlap, kfFocusOut, kfDup, kfTerm},
+		map[string]interface{}{"direct_cases": nDirect, "app_cases": nApp, "vaxis_close_hangs_tolerated": int(atomic.LoadInt32(&closeHangs))}, nil)
 }
